@@ -328,6 +328,17 @@ type bItem struct {
 
 // exploreShapes: level-synchronous BFS over the durable images of every shape; one work item = (image, commit order).
 func exploreShapes(bc *bCtx, specs []shapeSpec, permsL0, permsDeep [][4]int, maxDepth int, failInj bool, workers int) {
+	// shapes are explored in groups so that the images held in the BFS frontier stay bounded in memory
+	group := 6
+	if bc.r.Quick() {
+		group = 16
+	}
+	for i := 0; i < len(specs); i += group {
+		exploreShapeGroup(bc, specs[i:min(i+group, len(specs))], permsL0, permsDeep, maxDepth, failInj, workers)
+	}
+}
+
+func exploreShapeGroup(bc *bCtx, specs []shapeSpec, permsL0, permsDeep [][4]int, maxDepth int, failInj bool, workers int) {
 	r, t := bc.r, bc.t
 	var shapes []*bShape
 	for _, sp := range specs {
